@@ -106,6 +106,46 @@ class Pool:
         return {"kind": "position", "line": line, "base": "fen", "fen": list(f), "pos": g["pos"], "moves": move_triples(mv, k), "valid": True}
 
 
+# pieces other than the king on the king's home square with the back rank open (move texts that read like castling), both colours
+BACK_RANK_FENS = ["4r1k1/5ppp/8/8/8/8/5PPP/4R1K1 w - - 0 1", "6k1/5ppp/8/8/8/8/5PPP/4Q1K1 w - - 3 9", "4r1k1/5ppp/8/8/8/8/5PPP/4R1K1 b - - 0 1", "4q1k1/5ppp/8/8/8/8/5PPP/6K1 b - - 5 12",
+                  "r3k2r/8/8/8/8/8/8/R3K2R w KQkq - 0 1", "r3k2r/8/8/8/8/8/8/R3K2R b KQkq - 0 1", "r3k2r/8/8/8/8/8/8/R3K2R w - - 0 1", "3rk3/8/8/8/8/8/8/3RK3 w - - 0 1",
+                  # promotions (quiet and capturing, all four pieces), en passant with two capturers, both colours
+                  "3r1n2/4P1k1/8/8/8/8/4p1K1/3R1N2 w - - 0 1", "3r1n2/4P1k1/8/8/8/8/4p1K1/3R1N2 b - - 0 1", "4k3/8/8/1PpP4/8/8/8/4K3 w - c6 0 2", "4k3/8/8/8/1pPp4/8/8/4K3 b - c3 0 1"]
+
+
+def every_move_sessions(pool, wvbin, wd, seed, quick):
+    """For selected positions, every legal move as a one-move list: `position fen F moves m`, then the engine's position is read
+    back (`.state`) and compared with the specification's Apply by UciTrace.tla."""
+    cpath = os.path.join(wd, "backrank.fen")
+    with open(cpath, "w") as f:
+        f.write("\n".join(BACK_RANK_FENS) + "\n")
+    wv(wvbin, ["play", "--seed", seed + 9, "--games", len(BACK_RANK_FENS), "--plies", 1, "--emit", "move", "--corpus", cpath, "--out-prefix", os.path.join(wd, "backrank")])
+    firsts = []
+    cur = None
+    for l in open(os.path.join(wd, "backrank.move.ndjson")):
+        e = json.loads(l)
+        if e["ev"] == "Reset":
+            cur = e["pos"]
+        elif e["ev"] == "Move" and cur is not None:
+            firsts.append((cur, e["moves"]))
+            cur = None
+    for g in pool.games[:(6 if quick else 30)]:
+        if g["moves"]:
+            firsts.append((g["pos"], g["moves"][0]["moves"]))
+            k = min(len(g["moves"]) - 1, 7)
+            if k >= 1:
+                firsts.append((g["moves"][k - 1]["next"], g["moves"][k]["moves"]))
+    sessions = []
+    for i, (p, moves) in enumerate(firsts):
+        f = pos_to_fen(p)
+        cm = []
+        for m in moves:
+            cm.append({"kind": "position", "line": "position fen %s moves %s" % (f, lan(m)), "base": "fen", "fen": list(f), "pos": p, "moves": [[m["from"], m["to"], m["promo"]]], "valid": True})
+        cm.append({"kind": "quit", "line": "quit"})
+        sessions.append((300000 + i, True, "immediate", cm))
+    return sessions
+
+
 def concretize(gen, pool, rnd, garbage=False):
     cmds = [{"kind": "uci", "line": "uci"}] if rnd.random() < 0.5 else []
     if gen["start"] != "book":
@@ -287,6 +327,8 @@ def check_uci(pid, tier, seed):
                                                             {"kind": "stop", "line": "stop"}, {"kind": "quit", "line": "quit"}]))
     for j, cmdsq in enumerate(extra * (1 if quick else 10)):
         sessions.append((100000 + j, True, "immediate", concretize({"start": "book", "cmds": cmdsq}, pool, rnd)))
+    if pid == "C07":
+        sessions += every_move_sessions(pool, wvbin, wd, seed, quick)
     traces = run_sessions(cli, wd, "uci", sessions)
     validate(chk, traces, pid)
     if pid == "C07":
